@@ -148,6 +148,10 @@ Proof. intros v o name Hm Hq Hr. unfold wildcard_compile. rewrite Hq, Hr, Hm. re
 Theorem refuted_traverse : forall v, g_traverse_struct v = false -> traverse v true = Panic STraverseStruct.
 Proof. intros v H. unfold traverse. rewrite H. reflexivity. Qed.
 
+Theorem refuted_deepcopy_nil : forall v, g_deepcopy_nil v = false ->
+  slice_deepcopy v (set_sources task0 [None]) = Panic SDeepCopyNil.
+Proof. intros v H. unfold slice_deepcopy. cbn. rewrite H. reflexivity. Qed.
+
 Theorem refuted_matrix_nil_map : forall v, g_omap_nil v = false -> for_deepcopy v (Some true) = Panic SMatrixNilMap.
 Proof. intros v H. unfold for_deepcopy. rewrite H. reflexivity. Qed.
 
